@@ -36,17 +36,22 @@ Decode(bytes) == DecRun(DecInit, bytes, 1)
 
 Bcs(chips) == {chips[i].bc : i \in 1..Len(chips)}
 
+\* user-configured outer-barrel checks (custom checks file): expected chip count per lane and the allowed chip id orders; NoCustom = none
+NoVal == 100000
+NoCustom == [count |-> NoVal, orders |-> << >>]
+ChipIdSeq(chips) == [i \in 1..Len(chips) |-> chips[i].id]
 \* verdict for one lane: "fatal" | "err" | "ok" (with its bunch counter)
-\* ib: inner barrel; laneNo: lane number; (custom chip count / order checks not modelled here)
-LaneVerdictD(d, ib, laneNo) ==
+\* ib: inner barrel; laneNo: lane number; custom: the outer-barrel chip count / order rules (they do not apply to inner-barrel lanes)
+LaneVerdictD(d, ib, laneNo, custom) ==
    IF d.fatal THEN [v |-> "fatal", bc |-> 0]
    ELSE IF d.chips = << >> THEN [v |-> "err", bc |-> 0]              \* no chip header / empty frame in the lane data: chip count error
    ELSE LET bcErr == Cardinality(Bcs(d.chips)) > 1
-            cntErr == ib /\ Len(d.chips) # 1
-            ordErr == ib /\ ~cntErr /\ d.chips[1].id # laneNo
+            cntErr == IF ib THEN Len(d.chips) # 1 ELSE (custom.count # NoVal /\ Len(d.chips) # custom.count)
+            ordErr == ~cntErr /\ (IF ib THEN d.chips[1].id # laneNo
+                                  ELSE custom.orders # << >> /\ ~(\E k \in 1..Len(custom.orders) : custom.orders[k] = ChipIdSeq(d.chips)))
         IN IF d.dup \/ bcErr \/ cntErr \/ ordErr THEN [v |-> "err", bc |-> 0]
            ELSE [v |-> "ok", bc |-> d.chips[1].bc]
-LaneVerdict(bytes, ib, laneNo) == LaneVerdictD(Decode(bytes), ib, laneNo)
+LaneVerdict(bytes, ib, laneNo) == LaneVerdictD(Decode(bytes), ib, laneNo, NoCustom)
 
 \* ---- readout flags of the chip trailers (statistics only: they never change a verdict) ----
 \* [trailers, busy violation 1000, data overrun 1100, transmission in fatal 1110, else: flushed incomplete x1xx, strobe extended xx1x, busy transition xxx1]
